@@ -19,7 +19,7 @@ ASSUMPTIONS = ['"equal up to white space" = equal as sequences of white-space se
 
 TEXTS = [
     ('word', 'word'), ('double-space', 'two  words'), ('lead-trail', '  lead and trail  '),
-    ('multiline', 'multi\n    line\n\tindented'), ('tab', 'tab\there'), ('crlf', 'crlf\r\ninside'),
+    ('multiline', 'multi\n    line\n\tindented'), ('tab', 'tab\there'), ('crlf', 'crlf\r\ninside'), ('bare-cr', 'bare\rcr'),
     ('bs-n', 'back\\nslash-n'), ('bs-t', 'back\\tslash-t'), ('bs-bs', 'double\\\\backslash'), ('bs-x', 'hex\\xescape'),
     ('bs-u', 'uni\\u12'), ('bs-N', 'name\\N'), ('bs-trailing', 'trailing\\'), ('bs-space', 'back\\ slash space'),
     ('apostrophe', "apos'trophe"), ('triple-apostrophe', "triple'''apos"), ('non-ascii', 'café 中文'),
@@ -106,7 +106,7 @@ def words(s):
     return s.split()
 
 
-def run_slot(slot, text, gen_texts, identity, sigbase):
+def run_slot(slot, text, gen_texts, identity, sigbase, source='memory'):
     sid, kind, field, jkey, pacc, gated = slot
     decls = build(kind, field, text)
     mod = refir.finish_module({'name': 'TEST-MIB', 'decls': decls})
@@ -120,7 +120,7 @@ def run_slot(slot, text, gen_texts, identity, sigbase):
     for backend in ('json', 'pysnmp'):
         parser = env.shared_parser('smiV2')
         parser.reset()
-        res, written = env.compile_set({'TEST-MIB': src}, ['TEST-MIB'], codegen=backend, dialect=parser, **opts)
+        res, written = env.compile_set({'TEST-MIB': src}, ['TEST-MIB'], codegen=backend, dialect=parser, source=source, **opts)
         st = res.get('TEST-MIB')
         if st != 'compiled':
             vs.append(('%s|%s|not-compiled' % (sigbase, backend), '%r %r\n%s' % (st, getattr(st, 'error', None), src)))
@@ -277,4 +277,27 @@ class SwitchHistories(object):
         return repr(obs), vs, len(case['seq'])
 
 
-FAMILIES = [Slots(), Pairs(), SwitchHistories()]
+
+class FromFiles(object):
+    name = 'slots-from-files'
+    describe = ('the slots x the texts that contain line breaks or non-ASCII characters (LF, CR LF, bare CR, tab, UTF-8), genTexts on, '
+                'default / identity filter, with the module text written to a directory or ZIP archive and read back by the real '
+                'FileReader / ZipReader (octets as written)')
+    PICK = ('multiline', 'crlf', 'bare-cr', 'tab', 'non-ascii', 'lead-trail')
+
+    def blocks(self, tier):
+        return [{'slot': i, 'source': src} for i in range(len(SLOTS)) for src in ('files', 'zip')]
+
+    def cases(self, block, tier):
+        for t, (tname, _) in enumerate(TEXTS):
+            if tname in self.PICK:
+                for ident in (0, 1):
+                    yield {'slot': block['slot'], 'source': block['source'], 't': t, 'id': ident}
+
+    def run_case(self, case):
+        slot = SLOTS[case['slot']]
+        tname, text = TEXTS[case['t']]
+        sig = 'C15|%s|%s|%s|read-from-%s' % (slot[0], tname, 'identity' if case['id'] else 'default', case['source'])
+        return run_slot(slot, text, True, bool(case['id']), sig, source=case['source'])
+
+FAMILIES = [Slots(), Pairs(), SwitchHistories(), FromFiles()]
